@@ -228,6 +228,7 @@ impl Case {
             max_steps: u(p, "max_steps")?,
             max_polls: u(p, "max_polls")?,
             search_on_main: p["search_on_main"].as_bool().unwrap_or(false),
+            record_opps: false,
         };
         let pl = &v["plan"];
         let plan = match s(pl, "kind")?.as_str() {
